@@ -9,7 +9,7 @@ package py
 type Bool bool
 
 var (
-	BoolType = NewType("bool", "bool(x) -> bool\n\nReturns True when the argument x is true, False otherwise.\nThe builtins True and False are the only two instances of the class bool.\nThe class bool is a subclass of the class int, and cannot be subclassed.")
+	BoolType = NewTypeX("bool", "bool(x) -> bool\n\nReturns True when the argument x is true, False otherwise.\nThe builtins True and False are the only two instances of the class bool.\nThe class bool is a subclass of the class int, and cannot be subclassed.", BoolNew, nil)
 	// Some well known bools
 	False = Bool(false)
 	True  = Bool(true)
@@ -18,6 +18,16 @@ var (
 // Type of this object
 func (s Bool) Type() *Type {
 	return BoolType
+}
+
+// BoolNew implements bool(x)
+func BoolNew(metatype *Type, args Tuple, kwargs StringDict) (Object, error) {
+	var x Object = False
+	err := UnpackTuple(args, kwargs, "bool", 0, 1, &x)
+	if err != nil {
+		return nil, err
+	}
+	return MakeBool(x)
 }
 
 // Make a new bool - returns the canonical True and False values
